@@ -345,6 +345,44 @@ impl Formatter for PdfFormatter {
     }
 }
 
+/// Verification hook (feature `verif-hooks`, off by default): the text runs of the compiled Typst
+/// document, as (page, x pt, y pt, text), produced by exactly the same template data and compile
+/// step as [`format`] but without exporting PDF bytes, so that the figures shown in the PDF can be
+/// compared without a PDF text extractor.
+#[cfg(feature = "verif-hooks")]
+pub fn verif_text_runs(report: &TaxReport) -> Result<Vec<(usize, f64, f64, String)>, PdfError> {
+    use typst::layout::{Frame, FrameItem, PagedDocument, Point};
+
+    let data = build_template_data(report)?;
+    let engine = TypstEngine::builder()
+        .main_file(TEMPLATE)
+        .fonts([ROBOTO_REGULAR, ROBOTO_BOLD])
+        .build();
+    let compiled = engine.compile_with_input(data);
+    let doc: PagedDocument = compiled
+        .output
+        .map_err(|e| PdfError::TypstCompilation(e.to_string()))?;
+
+    fn walk(frame: &Frame, origin: Point, page: usize, out: &mut Vec<(usize, f64, f64, String)>) {
+        for (pos, item) in frame.items() {
+            let p = origin + *pos;
+            match item {
+                FrameItem::Group(g) => walk(&g.frame, p, page, out),
+                FrameItem::Text(t) => {
+                    out.push((page, p.x.to_pt(), p.y.to_pt(), t.text.to_string()))
+                }
+                _ => {}
+            }
+        }
+    }
+
+    let mut out = Vec::new();
+    for (i, page) in doc.pages.iter().enumerate() {
+        walk(&page.frame, Point::zero(), i, &mut out);
+    }
+    Ok(out)
+}
+
 #[cfg(test)]
 mod tests {
     use super::*;
